@@ -65,7 +65,7 @@ structure Atom (cs : CaseQ) (d : DatasetQ) (ops : List HOp) (cen : Centering) (i
     -- (W0a) the atom is equivalent to its label atom under a tabulated operation, same species
     (d.orbits[i]! < cs.cell.n ∧ cs.cell.num[d.orbits[i]!]! = cs.cell.num[i]! ∧
       ∃ (jl : Nat) (g : HOp), LandsOn cs d d.orbits[i]! jl ∧ g ∈ ops ∧
-        PeriodicWithin d.stdCell.lat (siteDiff d g jl j) tinyEps2) ∧
+        PeriodicWithin d.stdCell.lat (siteDiff d g jl j) ((4 * d.symprec) * (4 * d.symprec))) ∧
     -- (W4) agreement with the generator's Wyckoff row, per operation (settings may differ)
     (0 ≤ cs.truth.wyck[i]! → ∃ trow, wyckoffTable[(cs.truth.wyck[i]!).toNat]? = some trow ∧
       trow.hallNumber = cs.truth.hall ∧
@@ -80,12 +80,24 @@ def LabelsSeparated (cs : CaseQ) (d : DatasetQ) (ops : List HOp) : Prop :=
     ∃ j1 j2, LandsOn cs d l1 j1 ∧ LandsOn cs d l2 j2 ∧
       ∀ g ∈ ops, ¬ PeriodicWithin d.stdCell.lat (siteDiff d g j1 j2) tinyEps2
 
+/-- (W5) same label ⇔ related by a tabulated operation, through the label atoms: for every label atom
+`l` and every atom `j` of its species, `orbits[j] = l` exactly when the exact site search from the
+images `g·s_l` (all tabulated operations `g` of the reported Hall number, within `4·symprec`) returns
+the std_cell site of `j`.  `Props/C07.lean` turns membership in `siteImages` into
+`∃ g, g·s_l ≡ s_j` (`siteImages_mem_sound`; conversely `siteImages_mem_complete` when like sites of
+std_cell are separated by more than the tolerance). -/
+def LabelsMatchOps (cs : CaseQ) (d : DatasetQ) (ops : List HOp) : Prop :=
+  ∀ l j, l < cs.cell.n → j < cs.cell.n → d.orbits[l]! = l → cs.cell.num[l]! = cs.cell.num[j]! →
+    ∃ sl sj, LandsOn cs d l sl ∧ LandsOn cs d j sj ∧
+      (d.orbits[j]! = l ↔ sj ∈ siteImages d ops sl ((4 * d.symprec) * (4 * d.symprec)))
+
 end C07
 
 /-- The Wyckoff clauses of C07. -/
 structure C07Wyckoff (cs : CaseQ) (d : DatasetQ) : Prop where
   spec : ∃ (ops : List HOp) (cen : Centering),
     convOps d.hallNumber.toNat = some ops ∧ centeringOfHall d.hallNumber.toNat = some cen ∧
-    (∀ i, i < cs.cell.n → C07.Atom cs d ops cen i) ∧ C07.LabelsSeparated cs d ops
+    (∀ i, i < cs.cell.n → C07.Atom cs d ops cen i) ∧ C07.LabelsSeparated cs d ops ∧
+    C07.LabelsMatchOps cs d ops
 
 end Moyo.Spec
